@@ -65,6 +65,8 @@ func clip(s string) string {
 // ---------- (a) allocation budget ----------
 
 func checkAlloc(t ev.TB, test string, pl payload) {
+	ev.InFlight(test, pl)
+	defer ev.InFlightDone()
 	p, inputs := pl.Program, pl.Inputs
 	base, why := refx.StableBy(p, inputs, ref.DefaultConfig(), refx.KeyWithAllocs)
 	// failf reports a violation unless the program turns out to be outside
@@ -262,6 +264,8 @@ func tooLongMap(m map[string]tengo.Object, max, depth int) string {
 }
 
 func checkStrLen(t ev.TB, test string, pl payload) {
+	ev.InFlight(test, pl)
+	defer ev.InFlightDone()
 	if pl.MaxLen != maxLen {
 		t.Fatalf("replay needs VERIF_MAXLEN=%d (process has %d)", pl.MaxLen, maxLen)
 	}
@@ -442,6 +446,8 @@ func recursionSource(locals, pending int, tail bool) string {
 }
 
 func checkRecursion(t ev.TB, test string, pl payload, slotUse int) {
+	ev.InFlight(test, pl)
+	defer ev.InFlightDone()
 	res := bridge.Run(pl.Source, nil, nil, bridge.Config{})
 	switch res.Status {
 	case "runtime-error":
